@@ -3,6 +3,7 @@ package middleware
 import (
 	"fmt"
 	"net/http"
+	"net/url"
 
 	"github.com/go-chi/chi/v5"
 )
@@ -22,6 +23,7 @@ func SmartRedirectSlashes(next http.Handler) http.Handler {
 		rctx := chi.RouteContext(r.Context())
 		if rctx != nil {
 			var path string
+			decoded := false
 			if rctx.RoutePath != "" {
 				path = rctx.RoutePath
 			} else if r.URL.RawPath != "" {
@@ -30,6 +32,7 @@ func SmartRedirectSlashes(next http.Handler) http.Handler {
 				path = r.URL.RawPath
 			} else {
 				path = r.URL.Path
+				decoded = true
 			}
 			var method string
 			if rctx.RouteMethod != "" {
@@ -46,6 +49,10 @@ func SmartRedirectSlashes(next http.Handler) http.Handler {
 							path += "/"
 						}
 						if rctx.Routes.Match(chi.NewRouteContext(), method, path) {
+							if decoded {
+								// the Location header carries the escaped form
+								path = (&url.URL{Path: path}).EscapedPath()
+							}
 							if r.URL.RawQuery != "" {
 								path = fmt.Sprintf("%s?%s", path, r.URL.RawQuery)
 							}
